@@ -72,6 +72,19 @@ SDT_TYPE = {"kind": "section", "name": "sdt", "keytype": None,
                  "default": None, "defaults": [["k1", "v1"], ["k1", "v2"]]}]}
 SDT_SLOT = {"kind": "multisection", "name": "*", "type": "sdt",
             "required": False, "handler": None, "attribute": "sdt_list"}
+# an application type with a single-valued wildcard key that has keyed
+# defaults; a component type extends it under another key type (the
+# defaults are re-keyed for the derived type - the base type's stay)
+WB_TYPE = {"kind": "section", "name": "wbase", "keytype": "basic-key",
+           "datatype": None, "extends": None, "implements": None,
+           "children": [
+               {"kind": "key", "name": "+", "datatype": "string",
+                "required": False, "handler": None, "attribute": "wild",
+                "default": None,
+                "defaults": [["Alpha", "1"], ["beta", "2"], ["Gamma9", "3"]]},
+           ]}
+WB_SLOT = {"kind": "multisection", "name": "*", "type": "wbase",
+           "required": False, "handler": None, "attribute": "wb_list"}
 
 
 def shards(tier):
@@ -90,6 +103,8 @@ class World:
         model = family.random_model(rng, handlers=False)
         model["types"].append(copy.deepcopy(SDT_TYPE))
         model["children"].append(copy.deepcopy(SDT_SLOT))
+        model["types"].append(copy.deepcopy(WB_TYPE))
+        model["children"].append(copy.deepcopy(WB_SLOT))
         abstracts = [t["name"] for t in model["types"]
                      if t["kind"] == "abstract"]
         # a top-level slot per abstract type so imported implementers can be
@@ -107,9 +122,27 @@ class World:
         for i in range(rng.randint(1, 2)):
             name = space.new_name("c%d" % i)
             ctypes = packages.gen_component_types(rng, model, "c%d" % i)
+            if abstracts and i == 0:
+                ctypes.append(
+                    {"kind": "section", "name": "c0-wd", "keytype":
+                     rng.choice(["identifier", "identifier",
+                                 "ipaddr-or-hostname"]),
+                     "datatype": None, "extends": "wbase",
+                     "implements": abstracts[0], "children": []})
             space.write(name, {"component.xml": packages.component_xml(
                 ctypes, self.base)})
             self.components.append((name, ctypes))
+        # now and then the schema itself imports a component: a text that
+        # imports it again does nothing new
+        self.schema_level = None
+        head = None
+        if abstracts and rng.random() < 0.4:
+            sname = space.new_name("sl")
+            stypes = packages.gen_component_types(rng, model, "sl")
+            space.write(sname, {"component.xml": packages.component_xml(
+                stypes, self.base)})
+            self.schema_level = (sname, stypes)
+            head = "<import package='%s'/>" % sname
         # a component whose second type is broken (extends an unknown
         # type): importing it must fail every time, on any schema
         self.broken = space.new_name("broken")
@@ -143,8 +176,12 @@ class World:
         self.broken2_types = b2
         self.xml = family.render_xml(
             model, abstract_import=(self.base, "abstract.xml")
-            if abstracts else None)
-        self.res = family.Resolved(model)
+            if abstracts else None, head_xml=head)
+        rmodel = model
+        if self.schema_level:
+            rmodel = copy.deepcopy(model)
+            rmodel["types"].extend(copy.deepcopy(self.schema_level[1]))
+        self.res = family.Resolved(rmodel)
         self.abstracts = abstracts
 
     def fresh(self):
@@ -207,6 +244,11 @@ def make_step(rng, w, kind):
         tree["items"].insert(0, ["raw", "%import " + name])
         if rng.random() < 0.3:
             tree["items"].insert(1, ["raw", "%import " + name])
+        if getattr(w, "schema_level", None) and rng.random() < 0.5:
+            # the component the schema already has, imported once more -
+            # before or after the new one
+            tree["items"].insert(rng.choice([0, 0, 1]),
+                                 ["raw", "%import " + w.schema_level[0]])
         others = [c for c in w.components if c[0] != name]
         if others and rng.random() < 0.4:
             # a second component: imported as well (before or after the
@@ -245,6 +287,10 @@ def make_step(rng, w, kind):
         specs, _ = overrides.gen_specs(rng, w.res, tree)
         step["overrides"] = specs
     elif kind == "valid":
+        if rng.random() < 0.5:
+            n = texts.mknode("wbase", rng.choice([None, "wb1"]),
+                             rng.choice(["empty", "pair"]))
+            tree["items"].append(["s", n])
         # exercise defaults of the sdt type too
         if rng.random() < 0.5:
             n = texts.mknode("sdt", None)
